@@ -1007,7 +1007,10 @@ def run_widecov(facts, run, prop, type_filter=None):
 
         def bits(l):
             td = facts.ty(b.local_ty(l))
-            return td.get("bits") if td.get("k") in ("uint", "int") else None
+            # usize / isize are indices and lengths (their width is the target's, and `i as u32` on an index is routine)
+            if td.get("k") in ("uint", "int") and td.get("s") not in ("usize", "isize"):
+                return td.get("bits")
+            return None
         cand = set()
         for l in range(1, len(fn["locals"])):
             if bits(l) != 64 or not fn["locals"][l][1]:
